@@ -47,12 +47,12 @@ def gen(tier, rng):
                     continue
                 if box is not None and dw == 6 and dh == 6:
                     dw, dh = 4, 4
-                typed = (n // 4) % 2 == 1
+                typed = rz.pick(n, 205, [False, True])
                 pairs = TYPED_PAIRS if typed else DYN_PAIRS
                 slay, dlay = pairs[(n // 8) % len(pairs)]
-                cpu = rz.CPUS[n % 3]
-                threads = 4 if n % 5 == 0 else 1
-                alpha = n % 2 == 0
+                cpu = rz.pick(n, 119, rz.CPUS)
+                threads = rz.pick(n, 206, [1, 1, 1, 4])
+                alpha = rz.pick(n, 207, [True, False])
                 g += 1
                 for rep, sent in enumerate((0x1111 + n, 0x7777 + 3 * n)):
                     chk = ["pipeline", "ret_ok", "outside", "srcsame"] + (["memo_exact"] if rep else [])
@@ -76,15 +76,15 @@ def gen(tier, rng):
                     else:
                         box = (1, 2, dw + 3, dh + 2)
                     sw, sh = box[0] + box[2] + 3, box[1] + box[3] + 4
-                    typed = n % 2 == 1
+                    typed = rz.pick(n, 201, [False, True])
                     if typed:
-                        slay, dlay = [TYPED_PAIRS[2], TYPED_PAIRS[4], TYPED_PAIRS[5]][n % 3]
+                        slay, dlay = rz.pick(n, 202, [TYPED_PAIRS[2], TYPED_PAIRS[4], TYPED_PAIRS[5]])
                     else:
-                        slay, dlay = [DYN_PAIRS[3], DYN_PAIRS[5], DYN_PAIRS[6]][n % 3]
+                        slay, dlay = rz.pick(n, 203, [DYN_PAIRS[3], DYN_PAIRS[5], DYN_PAIRS[6]])
                     g += 1
                     for rep, sent in enumerate((0x3131 + n, 0x9797 + 5 * n)):
                         chk = ["pipeline", "ret_ok", "outside", "srcsame"] + (["memo_exact"] if rep else [])
-                        cases.append(rz.resize_case(pt, sw, sh, dw, dh, alg=alg, flt=flt, m=m, alpha=(n % 4 == 0), box=box, Q=1, cpu=rz.CPUS[n % 3],
+                        cases.append(rz.resize_case(pt, sw, sh, dw, dh, alg=alg, flt=flt, m=m, alpha=rz.pick(n, 204, [True, False, False, False]), box=box, Q=1, cpu=rz.pick(n, 120, rz.CPUS),
                                                     src_c={"g": "rand", "seed": n}, src_lay=lay_with_guard(slay, 1), dst_lay=lay_with_guard(dlay, 1),
                                                     api="typed" if typed else "dyn", log=("dst",), chk=chk, g=g, sent=sent))
     # errors and zero sizes leave the destination alone
@@ -103,7 +103,7 @@ def gen(tier, rng):
                     box, dw, dh = (1, 1, 3, 3), 0, 4
                     chk = ("pipeline", "ret_ok", "untouched", "outside", "srcsame")
                 dlay = {"k": "crop_mut", "pad": [1, 1, 1, 1]} if kind != "zerodst" else {"k": "slice", "extra": 4}
-                cases.append(rz.resize_case(pt, sw, sh, dw, dh, alg=alg, flt=flt, m=m, alpha=True, box=box, Q=1, cpu=rz.CPUS[g % 3],
+                cases.append(rz.resize_case(pt, sw, sh, dw, dh, alg=alg, flt=flt, m=m, alpha=True, box=box, Q=1, cpu=rz.pick(g, 121, rz.CPUS),
                                             src_c={"g": "rand", "seed": g}, dst_lay=dlay, log=("dst", "dst0"), chk=chk, g=g))
     # alpha operations, colour mapping, component conversion
     others = []
